@@ -48,6 +48,15 @@ impl Rng {
     }
 }
 
+#[derive(Clone, Copy)]
+pub struct F32(pub f32);
+#[derive(Clone, Copy)]
+pub struct F64(pub f64);
+impl Same<F32> for F32 { fn same(&self, r: &F32) -> bool { self.0.to_bits() == r.0.to_bits() } }
+impl Same<F64> for F64 { fn same(&self, r: &F64) -> bool { self.0.to_bits() == r.0.to_bits() } }
+impl Out for F32 { fn o(&self, s: &mut String) { Out::o(&self.0, s) } }
+impl Out for F64 { fn o(&self, s: &mut String) { Out::o(&self.0, s) } }
+
 macro_rules! chk {
     ($ev:ident, $bad:ident, $first:ident, $name:literal, $a:expr, $b:expr, $x:expr, $y:expr) => {{
         $ev += 1;
@@ -72,10 +81,23 @@ macro_rules! sweep_u {
             let (mut ev, mut bad, mut first) = (0u64, 0u64, String::new());
             let bits: u32 = 8 * <$P as Pat>::PAT_BYTES as u32;
             let span: u128 = if bits >= 64 { u128::MAX } else { 1u128 << bits };
+            if group == "c14f" {
+                // every f32 bit pattern in [lo, hi): the float itself and the same value widened to f64
+                for p in lo..hi {
+                    let x = f32::from_bits(p as u32);
+                    let y = x as f64;
+                    chk!(ev, bad, first, "from_f32", p, 0, bnum::cast::As::as_::<$T>(x), x as $P);
+                    chk!(ev, bad, first, "from_f64(widened f32)", p, 0, bnum::cast::As::as_::<$T>(y), y as $P);
+                    // a double with the same leading bits and a non-trivial tail
+                    let z = f64::from_bits(((p as u64) << 32) | (p as u64).wrapping_mul(0x9E3779B9) & 0xffff_ffff);
+                    chk!(ev, bad, first, "from_f64", p, 1, bnum::cast::As::as_::<$T>(z), z as $P);
+                }
+                return (ev, bad, first);
+            }
             let mut rng = Rng((lo as u64) | 1);
             let outer = if bulk { 0..hi } else { lo..hi };
             for it in outer {
-                let bmax: u128 = if bulk { 1 } else if group == "c05" { 2 * bits as u128 + 2 } else if group == "c08" { span.min(4096) } else { span };
+                let bmax: u128 = if bulk || group == "c14" { 1 } else if group == "c05" { 2 * bits as u128 + 2 } else if group == "c08" { span.min(4096) } else { span };
                 for bj in 0..bmax {
                     let (ai, bi): (u128, u128) = if bulk {
                         let (x, y) = rng.pair(bits);
@@ -162,6 +184,15 @@ macro_rules! sweep_u {
                             chk!(ev, bad, first, "max", ai, bi, a.max(b), pa.max(pb));
                             chk!(ev, bad, first, "min", ai, bi, a.min(b), pa.min(pb));
                         }
+                        "c14" => {
+                            chk!(ev, bad, first, "to_f32", ai, bi, F32(bnum::cast::As::as_::<f32>(a)), F32(pa as f32));
+                            chk!(ev, bad, first, "to_f64", ai, bi, F64(bnum::cast::As::as_::<f64>(a)), F64(pa as f64));
+                            // float -> integer from the second operand's bits (bulk mode; the dedicated c14f loop is exhaustive)
+                            let x = f32::from_bits(bi as u32);
+                            let y = f64::from_bits(bi as u64 ^ ((bi >> 64) as u64));
+                            chk!(ev, bad, first, "from_f32", ai, bi, bnum::cast::As::as_::<$T>(x), x as $P);
+                            chk!(ev, bad, first, "from_f64", ai, bi, bnum::cast::As::as_::<$T>(y), y as $P);
+                        }
                         "c08" => {
                             let e = (bi & 31) as u32;
                             chk!(ev, bad, first, "overflowing_pow", ai, bi, a.overflowing_pow(e), pa.overflowing_pow(e));
@@ -188,10 +219,23 @@ macro_rules! sweep_i {
             let (mut ev, mut bad, mut first) = (0u64, 0u64, String::new());
             let bits: u32 = 8 * <$P as Pat>::PAT_BYTES as u32;
             let span: u128 = if bits >= 64 { u128::MAX } else { 1u128 << bits };
+            if group == "c14f" {
+                // every f32 bit pattern in [lo, hi): the float itself and the same value widened to f64
+                for p in lo..hi {
+                    let x = f32::from_bits(p as u32);
+                    let y = x as f64;
+                    chk!(ev, bad, first, "from_f32", p, 0, bnum::cast::As::as_::<$T>(x), x as $P);
+                    chk!(ev, bad, first, "from_f64(widened f32)", p, 0, bnum::cast::As::as_::<$T>(y), y as $P);
+                    // a double with the same leading bits and a non-trivial tail
+                    let z = f64::from_bits(((p as u64) << 32) | (p as u64).wrapping_mul(0x9E3779B9) & 0xffff_ffff);
+                    chk!(ev, bad, first, "from_f64", p, 1, bnum::cast::As::as_::<$T>(z), z as $P);
+                }
+                return (ev, bad, first);
+            }
             let mut rng = Rng((lo as u64) | 1);
             let outer = if bulk { 0..hi } else { lo..hi };
             for it in outer {
-                let bmax: u128 = if bulk { 1 } else if group == "c05" { 2 * bits as u128 + 2 } else if group == "c08" { span.min(4096) } else { span };
+                let bmax: u128 = if bulk || group == "c14" { 1 } else if group == "c05" { 2 * bits as u128 + 2 } else if group == "c08" { span.min(4096) } else { span };
                 for bj in 0..bmax {
                     let (ai, bi): (u128, u128) = if bulk {
                         let (x, y) = rng.pair(bits);
@@ -286,6 +330,15 @@ macro_rules! sweep_i {
                                 chk!(ev, bad, first, "is_positive", ai, bi, a.is_positive(), pa.is_positive());
                                 chk!(ev, bad, first, "is_negative", ai, bi, a.is_negative(), pa.is_negative());
                             }
+                        }
+                        "c14" => {
+                            chk!(ev, bad, first, "to_f32", ai, bi, F32(bnum::cast::As::as_::<f32>(a)), F32(pa as f32));
+                            chk!(ev, bad, first, "to_f64", ai, bi, F64(bnum::cast::As::as_::<f64>(a)), F64(pa as f64));
+                            // float -> integer from the second operand's bits (bulk mode; the dedicated c14f loop is exhaustive)
+                            let x = f32::from_bits(bi as u32);
+                            let y = f64::from_bits(bi as u64 ^ ((bi >> 64) as u64));
+                            chk!(ev, bad, first, "from_f32", ai, bi, bnum::cast::As::as_::<$T>(x), x as $P);
+                            chk!(ev, bad, first, "from_f64", ai, bi, bnum::cast::As::as_::<$T>(y), y as $P);
                         }
                         "c08" => {
                             let e = (bi & 31) as u32;
